@@ -42,7 +42,7 @@ def run_items(ctx, cases, rops):
     for c, rop in zip(cases, rops):
         reads = {s["out"]: T.true_reads(s) for s in c["canon"]}
         items.append({"job": T.run_job_for(c, rop), "rop": rop, "tabled": list(c["inputs"]), "reads": reads,
-                      "want": T.canon_expected(c, rop), "label": T.script_text(c["stmts"]), "cat": c["cat"], "case": c})
+                      "want": (None if c.get("no_ref") else T.canon_expected(c, rop)), "label": T.script_text(c["stmts"]), "cat": c["cat"], "case": c})
     return items
 
 
@@ -106,6 +106,7 @@ def run(ctx):
         cases = T.gen_shape_cases(ctx.rng, ctx.tier)
         cases += T.gen_decorated_cases(ctx.rng, 3000 if ctx.tier == "thorough" else 150)
         cases += directed_cases()
+        cases += T.gen_localname_cases(ctx.rng, ctx.tier)
         ctx.log(f"X tie: {len(cases)} generated scripts")
         st = T.dag_tie(ctx, pool, cases, "c13dag")
         ctx.cov["exhaustive"] = True
